@@ -12,7 +12,10 @@ Import ListNotations.
    is (1, i): client A sends tbl[i]; (0, i): client B sends tbl[i]; (2, ms): nobody sends anything
    for ms milliseconds (keys with deadlines) *)
 Inductive case :=
-| KTx (tbl : list string) (steps : list (N * N)) (replies : list N) (dead : bool).
+| KTx (tbl : list string) (steps : list (N * N)) (replies : list N) (dead : bool)
+(* the same shape for an EXECUTOR-level scenario: every step (0 or 1, i) is the command tbl[i] executed
+   on one CommandExecutor (whoever "sends" it), (2, ms) lets ms milliseconds of virtual time pass *)
+| KXTx (tbl : list string) (steps : list (N * N)) (replies : list N) (dead : bool).
 
 Definition G : cfg := mk_cfg 60 2 1048576.
 
@@ -36,11 +39,37 @@ Fixpoint go (t : list bytes) (clock : N) (s : mstate) (ka kb : mconn) (steps : l
   | _, _ => false
   end.
 
+(* one command frame -> the command layer's reading of it *)
+Definition frame_cmd (b : bytes) : option mcmd :=
+  match parse true b with
+  | Done v n => if (n =? List.length b)%nat then match mdecode v with inl c => Some c | inr _ => None end else None
+  | _ => None
+  end.
+
+Fixpoint xgo (t : list bytes) (clock : N) (x : mxstate) (steps : list (N * N)) (replies : list N) : bool :=
+  match steps, replies with
+  | [], [] => true
+  | (w, h) :: steps', r :: replies' =>
+    if (w =? 2)%N then xgo t (clock + h)%N x steps' replies'
+    else
+      match frame_cmd (nth (N.to_nat h) t []) with
+      | None => false
+      | Some c =>
+        let x0 := mkX _ _ _ (at_time (x_st _ _ _ x) clock) (x_in _ _ _ x) (x_queue _ _ _ x) (x_watched _ _ _ x) in
+        let '(x', rep) := mx_step x0 c in
+        bytes_eqb (encode rep) (nth (N.to_nat r) t []) && xgo t clock x' steps' replies'
+      end
+  | _, _ => false
+  end.
+
 Definition check (k : case) : bool :=
   match k with
   | KTx tbl steps replies dead =>
     if dead then false   (* the model never dies on whole well-formed commands; a dead implementation is a mismatch *)
     else go (map unhex tbl) 0%N m0 (conn_init _ _ m0) (conn_init _ _ m0) steps replies
+  | KXTx tbl steps replies dead =>
+    if dead then false
+    else xgo (map unhex tbl) 0%N (x_init _ _ _ m0) steps replies
   end.
 
 Definition mismatches := mismatches_with check.
